@@ -180,8 +180,9 @@ func (a *App) indexFile(ctx context.Context, upload *db.Upload, p io.Reader, met
 		start := time.Now()
 		if err != nil {
 			fw.CloseWithError(err)
-		} else {
-			err = fw.Close()
+		} else if err = fw.Close(); err != nil {
+			// Discard whatever the failed Close left behind.
+			fw.CloseWithError(err)
 		}
 		infof(ctx, "Close(%q) took %.2f seconds", path, time.Since(start).Seconds())
 	}()
